@@ -166,6 +166,18 @@ func vh_sl_poller(x *vhSl, tid int, choice int) {
 func vh_sl_asserter0(x *vhSl, tid int, choice int) { vh_asserter(x, &x.k[0], choice) }
 func vh_sl_asserter1(x *vhSl, tid int, choice int) { vh_asserter(x, &x.k[1], choice) }
 
+// smallest two-waker race: one blocking fetch against two goroutines asserting one waker each
+func vh_sl_fetcher1(x *vhSl, tid int, choice int) {
+	id, ok := x.s.Fetch(true)
+	if !ok {
+		x.bad |= 8
+		return
+	}
+	x.returned(id)
+}
+func vh_sl_once0(x *vhSl, tid int, choice int) { x.k[0].assert() }
+func vh_sl_once1(x *vhSl, tid int, choice int) { x.k[1].assert() }
+
 // one goroutine asserting both wakers, in either order (choice bit 0)
 func vh_sl_asserter01(x *vhSl, tid int, choice int) {
 	if choice&1 == 0 {
